@@ -324,21 +324,21 @@ def judge(chk, traces, recs, cfg, focus, known=None, workers=4):
         chk.model_drift("trace %s event %s: model predicted %r, implementation %s/%r" % (dft[0], dft[1], dft[2], dft[3], dft[4]))
 
 
-def replay_batch(hists, cfg, keys, tid0, bal=False, tag=b""):
+def replay_batch(hists, cfg, keys, tid0, bal=False, tag=b"", evidence=None):
     traces, recs = [], []
     for i, h in enumerate(hists):
         w = sk.World(cfg, keys, tag=tag)
-        rec = ledger_drv.replay_hist(w, h, tid0 + i, bal=bal)
+        rec = ledger_drv.replay_hist(w, h, tid0 + i, bal=bal, evidence=evidence)
         traces.append(rec.trace())
         recs.append(rec)
     return traces, recs
 
 
-def random_batch(n, nsteps, cfg, keys, rng, tid0, hdr=False, bal=False, p_mut=0.3, nkeys=3):
+def random_batch(n, nsteps, cfg, keys, rng, tid0, hdr=False, bal=False, p_mut=0.3, nkeys=3, evidence=None):
     traces, recs, muts = [], [], {}
     for i in range(n):
         w = sk.World(cfg, keys, tag=b"r%d" % i)
-        rec = ledger_drv.Recorder(w, tid0 + i, bal=bal, full=(nsteps <= 14))
+        rec = ledger_drv.Recorder(w, tid0 + i, bal=bal, full=(nsteps <= 14), evidence=evidence)
         g = w.make_genesis()
         rec.start(g)
         rt = RandomTree(w, rec, rng, nkeys=nkeys, p_mut=p_mut, hdr=hdr)
@@ -523,12 +523,20 @@ def run(pid, tier, replay=None):
         for h in hists:
             chk.case(json.dumps([[s["res"], s["rule"], s["blk"]["mut"], s["blk"]["parent"], s["blk"]["ts"]] for s in h]),
                      nontrivial=any(s["res"] == "ok" and s["blk"]["height"] % 3 == 0 for s in h))
-        traces, recs = replay_batch(hists, cfg_hdr, keys, tid)
+        traces, recs = replay_batch(hists, cfg_hdr, keys, tid, evidence=pid)
         tid += len(traces)
         chk.sample({"source": "MC_LedgerHdrSim (TLC -simulate)", "steps": recs[0].abstract})
         judge(chk, traces, recs, cfg_hdr, focus)
+        evs = [e for rec in recs for e in rec.evidence_events]
         n, steps = (30, 16) if quick else (300, 30)
-        traces, recs, muts = random_batch(n, steps, cfg_hdr, keys, rng, tid, hdr=True, p_mut=0.4)
+        traces, recs, muts = random_batch(n, steps, cfg_hdr, keys, rng, tid, hdr=True, p_mut=0.4, evidence=pid)
+        evs += [e for rec in recs for e in rec.evidence_events]
+        # the evidence data flow re-derived by TLC (PowEvidence.tla) for a sample of the offered blocks, accepted and rejected
+        rng.shuffle(evs)
+        acc = [e for e in evs if e["accepted"]][:50 if quick else 1500]
+        rej = [e for e in evs if not e["evok"]][:25 if quick else 600]
+        ledger_drv.validate_evidence(chk, acc + rej)
+        chk.extra["evidence_events_validated_by_PowEvidence"] = {"accepted": len(acc), "with_bad_evidence": len(rej)}
         tid += len(traces)
         for rec in recs:
             chk.case(json.dumps(rec.abstract), nontrivial=True)
